@@ -44,7 +44,7 @@ _RE_STATS = re.compile(r'^(\d+) states generated, (\d+) distinct states found', 
 _RE_DEPTH = re.compile(r'The depth of the complete state graph search is (\d+)')
 _RE_COV = re.compile(r'^<(\w+) line (\d+), col (\d+) to line (\d+), col (\d+) of module (\w+)>: (\d+):(\d+)', re.M)
 _RE_VIOL = re.compile(r'Error: Invariant (\S+) is violated|Error: Action property (\S+) is violated|'
-                      r'Error: Temporal properties were violated|Error: Deadlock reached')
+                      r'Error: Temporal propert(?:ies were|y \S+ was) violated|Error: Deadlock reached')
 
 
 def _tlc_cmd():
